@@ -815,7 +815,7 @@ func main() {
 				h = plain("grid", n, orders[rng.Intn(3)])
 			}
 			hist(h)
-			if thorough { // every order class for every size
+			if thorough && k <= 3 { // every order class for every size
 				for _, o := range orders {
 					hist(plain("grid", n, o))
 				}
@@ -857,7 +857,7 @@ func main() {
 	// ---- random sizes and interleavings
 	nr, big := 16, 3
 	if thorough {
-		nr, big = 600, 5
+		nr, big = 400, 5
 	}
 	for i := 0; i < nr; i++ {
 		var n int
